@@ -118,3 +118,31 @@ PROPS["C11"] = dict(
     partial="The staged PID/integral computation is proved equal to a non-incremental specification for every event history (tier S, "
             "bit-exact for f32); that the specification approximates the continuous PID law is not a claim of rounding analysis.",
 )
+
+PROPS["C04"] = dict(
+    gen=cases.gen_C04,
+    oracle=cases.oracle_C04,
+    mask={"cat", "time", "float"},
+    tol=NUM_TOL,
+    rule="every interleaving of {present, absent, Err(1), Err(2)} up to length 4; random histories up to 64 (256) events with strictly "
+         "increasing timestamps (dt log-uniform 1 us..2 h), random gains/setpoints/values; each random history is accompanied by the same "
+         "history shifted by a constant (outputs must be identical apart from the timestamp) and scaled by 2^k, k in [-8,8] (outputs must "
+         "scale exactly) — metamorphic oracles evaluated on the implementation's own outputs; all lines compared bit-for-bit with the model",
+    trusted_base=COMMON_TB,
+    assumptions=COMMON_AS,
+    partial="Proved: output = non-incremental textbook PID of the current run for every history (tier S, bit-exact), reset rule, shift "
+            "invariance (tier S), scaling in exact arithmetic (tier R). Not yet covered by a theorem or a harness group: agreement with the "
+            "controller assembled from the crate's difference/integral/derivative/product/sum streams (examples/pid.rs wiring); f32 rounding "
+            "of the scaling law is tested (exact for powers of two), not proved.",
+)
+
+PROPS["C15"] = dict(
+    gen=cases.gen_C15,
+    mask={"cat", "time", "float"},
+    rule="random operation sequences up to 40 ops over {set(v) with scripted success/failure, follow, stop_following, change of the "
+         "followed getter's output (present/absent/error), update, get_last_request} on a recording settable; the same plus clock changes "
+         "on a ConstantGetter; GetterFromHistory over a scripted history (value = query time, absent below a threshold) for all four "
+         "constructors with clock advances, set_delta, set_time, erroring clocks; TimeGetterFromGetter over all input categories",
+    trusted_base=COMMON_TB,
+    assumptions=["clock + offset arithmetic does not overflow i64 (generators stay in range)"],
+)
